@@ -51,8 +51,7 @@ theorem wrap_id (a : Int) (h1 : -9223372036854775808 ≤ a) (h2 : a ≤ 92233720
 set_option maxHeartbeats 1000000 in
 /-- **append_eq.** -/
 theorem append_eq (x : Dec) (fmtc : Char) (prec : Int) (hp : -2147483648 ≤ prec ∧ prec ≤ 2147483647)
-    (hx : Small x) (h1 : ∀ p, Small (roundBelowQuantum x p))
-    (h2 : ∀ r, Small (set { mode := x.mode, prec := r } x)) :
+    (hx : Small x) (h2 : ∀ r, Small (set { mode := x.mode, prec := r } x)) :
     append x fmtc prec = appendG x fmtc prec := by
   obtain ⟨hp1, hp2⟩ := hp
   obtain ⟨hxd, hxe1, hxe2⟩ := hx
